@@ -1,0 +1,19 @@
+//go:build verif
+
+package variants
+
+import (
+	"io"
+
+	"github.com/virus-evolution/gofasta/pkg/fastaio"
+)
+
+// VerifFindReference exposes findReference to the verification harness.
+func VerifFindReference(msaIn io.Reader, referenceID string) (fastaio.EncodedFastaRecord, error) {
+	return findReference(msaIn, referenceID)
+}
+
+// VerifGetIndelsPair exposes getIndelsPair to the verification harness.
+func VerifGetIndelsPair(ref, query []byte, offsetRefCoord []int, offsetMSACoord []int) []Variant {
+	return getIndelsPair(ref, query, offsetRefCoord, offsetMSACoord)
+}
